@@ -1,6 +1,16 @@
 import PeptVerif.Model.Score
 import PeptVerif.Spec.Score
 import Mathlib.Order.Defs.LinearOrder
+import Mathlib.Algebra.Order.Ring.Unbundled.Rat
+import Mathlib.Algebra.Order.Field.Rat
+import Mathlib.Algebra.Order.Field.Basic
+import Mathlib.Algebra.Order.Ring.Abs
+import Mathlib.Algebra.BigOperators.Group.List.Basic
+import Mathlib.Algebra.Order.BigOperators.Group.List
+import Mathlib.Data.List.Nodup
+import Mathlib.Data.List.Perm.Lattice
+import Mathlib.Tactic.Linarith
+import Mathlib.Tactic.Ring
 /-! Helper lemmas for C17 (two-pointer sweep, windows on sorted lists, arg-best, intensity fraction). -/
 namespace Score
 variable {α : Type}
@@ -284,4 +294,222 @@ theorem slice_getElem {γ : Type} (l : List γ) (s e i : Nat) (h : i < (slice l 
   simp [slice]
 
 end
+/-! ### match_spectra modes -/
+
+
+theorem pick_none_iff [Num α] (mode : Mode) (ys : List α) (ints : Option (List α)) (x : α) (w : Option (Nat × Nat)) :
+    pick mode ys ints x w = .ok Hit.none ↔ w = none := by
+  cases w with
+  | none => simp [pick]
+  | some p =>
+    obtain ⟨s, e⟩ := p
+    simp only [reduceCtorEq, iff_false]
+    cases mode <;> simp only [pick]
+    · intro h; cases h
+    · split <;> intro h <;> cases h
+    · split
+      · intro h; cases h
+      · split <;> intro h <;> cases h
+
+theorem pick_all [Num α] (ys : List α) (ints : Option (List α)) (x : α) (w : Option (Nat × Nat))
+    (hw : ∀ s e, w = some (s, e) → s < e) :
+    pick .all ys ints x w = .ok (hitOfWindow (idxList w)) := by
+  cases w with
+  | none => simp [pick, hitOfWindow, idxList]
+  | some p =>
+    obtain ⟨s, e⟩ := p
+    have := hw s e rfl
+    have hne : List.range' s (e - s) ≠ [] := by
+      intro h; have := congrArg List.length h; simp at this; omega
+    simp [pick, hitOfWindow, idxList, hne]
+
+theorem windowTW_wf (below within : α → α → Bool) (ys : List α) (x : α) :
+    ∀ s e, windowTW below within ys x = some (s, e) → s < e ∧ e ≤ ys.length := by
+  intro s e h
+  unfold windowTW at h
+  simp only at h
+  split at h
+  · cases h
+  · rename_i hm
+    simp only [Option.some.injEq, Prod.mk.injEq] at h
+    obtain ⟨rfl, rfl⟩ := h
+    refine ⟨by omega, ?_⟩
+    have h1 := takeWhile_len_le (fun y => within y x) (ys.drop (ys.takeWhile (fun y => below y x)).length)
+    have h2 := takeWhile_len_le (fun y => below y x) ys
+    simp only [List.length_drop] at h1
+    omega
+
+theorem absDiff_rat (a b : Rat) : absDiff a b = |a - b| := by
+  simp only [absDiff, rat_sub, rat_lt, rat_zero, decide_eq_true_eq]
+  split
+  · rename_i h; rw [abs_of_neg h]; ring
+  · rename_i h; rw [abs_of_nonneg (not_lt.mp h)]
+
+theorem closest_spec (ys : List Rat) (ints : Option (List Rat)) (x : Rat) (s e : Nat) (hse : s < e) (he : e ≤ ys.length) :
+    ∃ j, pick .closest ys ints x (some (s, e)) = .ok (.one j) ∧ s ≤ j ∧ ∃ hj : j < e,
+      ∀ k (hk : k < e), s ≤ k → |x - ys[j]'(by omega)| ≤ |x - ys[k]'(by omega)| := by
+  have hlen : ((slice ys s e).map (absDiff x)).length = e - s := by simp [slice_length _ _ _ he]
+  have hne : (slice ys s e).map (absDiff x) ≠ [] := by
+    intro h; rw [h] at hlen; simp at hlen; omega
+  obtain ⟨r, hr, hrl, hmin⟩ := argBest_spec (fun (a b : Rat) => a < b) (fun a => lt_irrefl a)
+    (fun a b c => lt_trans) (fun a b c h1 h2 => not_lt.mpr (le_trans (not_lt.mp h2) (not_lt.mp h1))) _ hne
+  refine ⟨s + r, ?_, Nat.le_add_right _ _, by omega, ?_⟩
+  · simp only [pick, rat_lt]
+    rw [hr]
+  · intro k hk hsk
+    have hk' : k - s < ((slice ys s e).map (absDiff x)).length := by omega
+    have hmem : ((slice ys s e).map (absDiff x))[k - s] ∈ (slice ys s e).map (absDiff x) := List.getElem_mem hk'
+    have := hmin _ hmem
+    simp only [List.getElem_map, slice_getElem, absDiff_rat, not_lt] at this
+    have e1 : s + (k - s) = k := by omega
+    simp only [e1] at this
+    exact this
+
+theorem largest_spec (ys ints : List Rat) (x : Rat) (s e : Nat) (hse : s < e) (he : e ≤ ints.length) :
+    ∃ j, pick .largest ys (some ints) x (some (s, e)) = .ok (.one j) ∧ s ≤ j ∧ ∃ hj : j < e,
+      ∀ k (hk : k < e), s ≤ k → ints[k]'(by omega) ≤ ints[j]'(by omega) := by
+  have hlen : (slice ints s e).length = e - s := slice_length _ _ _ he
+  have hne : slice ints s e ≠ [] := by
+    intro h; rw [h] at hlen; simp at hlen; omega
+  obtain ⟨r, hr, hrl, hmin⟩ := argBest_spec (fun (a b : Rat) => b < a) (fun a => lt_irrefl a)
+    (fun a b c h1 h2 => lt_trans h2 h1) (fun a b c h1 h2 => not_lt.mpr (le_trans (not_lt.mp h1) (not_lt.mp h2))) _ hne
+  refine ⟨s + r, ?_, Nat.le_add_right _ _, by omega, ?_⟩
+  · simp only [pick, rat_lt]
+    rw [hr]
+  · intro k hk hsk
+    have hk' : k - s < (slice ints s e).length := by omega
+    have hmem : (slice ints s e)[k - s] ∈ slice ints s e := List.getElem_mem hk'
+    have := hmin _ hmem
+    simp only [slice_getElem, not_lt] at this
+    have e1 : s + (k - s) = k := by omega
+    simp only [e1] at this
+    exact this
+
+
+/-! intensity fraction -/
+
+theorem sumL_eq_sum (l : List Rat) : sumL l = l.sum := by
+  unfold sumL
+  have : ∀ (acc : Rat), l.foldl Num.add acc = acc + l.sum := by
+    induction l with
+    | nil => intro acc; simp
+    | cons a l ih => intro acc; simp only [List.foldl_cons, ih, rat_add, List.sum_cons]; ring
+  rw [this]; simp only [rat_zero, zero_add]
+
+/-- on a dict that is consistent with the new binding (same key ⇒ same value), `d[k] = v` appends the pair if it is new -/
+theorem dictSet_consistent (k v : Rat) (d : List (Rat × Rat)) (hc : ∀ p ∈ d, p.1 = k → p.2 = v) :
+    dictSet (fun a b => decide (a = b)) k v d = if (k, v) ∈ d then d else d ++ [(k, v)] := by
+  induction d with
+  | nil => simp [dictSet]
+  | cons p d ih =>
+    obtain ⟨k', v'⟩ := p
+    by_cases hk : k' = k
+    · have hv : v' = v := hc (k', v') (by simp) hk
+      subst hk; subst hv
+      simp [dictSet]
+    · have := ih (fun p hp => hc p (by simp [hp]))
+      simp only [dictSet, hk, decide_false, Bool.false_eq_true, if_false, this]
+      by_cases hm : (k, v) ∈ d
+      · simp [hm]
+      · have : (k, v) ≠ (k', v') := by
+          intro h; apply hk; exact (congrArg Prod.fst h).symm
+        simp [hm, this]
+
+theorem groupByMz_spec (ms : List (Rat × Rat)) (hf : ∀ p ∈ ms, ∀ q ∈ ms, p.1 = q.1 → p.2 = q.2) :
+    (groupByMz ms).Nodup ∧ ∀ p, p ∈ groupByMz ms ↔ p ∈ ms := by
+  unfold groupByMz
+  have gen : ∀ (l : List (Rat × Rat)) (d : List (Rat × Rat)),
+      (∀ p ∈ d ++ l, ∀ q ∈ d ++ l, p.1 = q.1 → p.2 = q.2) → d.Nodup →
+      (l.foldl (fun d m => dictSet Num.eq m.1 m.2 d) d).Nodup ∧
+        ∀ p, p ∈ l.foldl (fun d m => dictSet Num.eq m.1 m.2 d) d ↔ p ∈ d ∨ p ∈ l := by
+    intro l
+    induction l with
+    | nil => intro d _ hd; simp [hd]
+    | cons m l ih =>
+      intro d hc hd
+      obtain ⟨k, v⟩ := m
+      have hset : dictSet Num.eq k v d = if (k, v) ∈ d then d else d ++ [(k, v)] := by
+        apply dictSet_consistent
+        intro p hp hpk
+        exact hc p (by simp [hp]) (k, v) (by simp) hpk
+      simp only [List.foldl_cons, hset]
+      by_cases hm : (k, v) ∈ d
+      · simp only [hm, if_true]
+        obtain ⟨h1, h2⟩ := ih d (fun p hp q hq => hc p (by
+            rcases List.mem_append.mp hp with h | h
+            · simp [h]
+            · simp [h]) q (by
+            rcases List.mem_append.mp hq with h | h
+            · simp [h]
+            · simp [h])) hd
+        refine ⟨h1, fun p => ?_⟩
+        rw [h2 p]
+        constructor
+        · rintro (h | h)
+          · exact Or.inl h
+          · exact Or.inr (by simp [h])
+        · rintro (h | h)
+          · exact Or.inl h
+          · rcases List.mem_cons.mp h with rfl | h
+            · exact Or.inl hm
+            · exact Or.inr h
+      · simp only [hm, if_false]
+        obtain ⟨h1, h2⟩ := ih (d ++ [(k, v)]) (fun p hp q hq => hc p (by
+            simp only [List.mem_append, List.mem_cons, List.mem_nil_iff, or_false] at hp ⊢
+            tauto) q (by
+            simp only [List.mem_append, List.mem_cons, List.mem_nil_iff, or_false] at hq ⊢
+            tauto)) (by
+            rw [List.nodup_append]
+            refine ⟨hd, by simp, ?_⟩
+            intro a ha b hb
+            simp only [List.mem_cons, List.mem_nil_iff, or_false] at hb
+            subst hb
+            intro h; subst h; exact hm ha)
+        refine ⟨h1, fun p => ?_⟩
+        rw [h2 p]
+        simp only [List.mem_append, List.mem_cons, List.mem_nil_iff, or_false]
+        tauto
+  have := gen ms [] (by simpa using hf) List.nodup_nil
+  simpa using this
+
+
+theorem matched_sum_eq (ps ms : List (Rat × Rat)) (hnd : (ps.map (·.1)).Nodup) (hsub : ∀ m ∈ ms, m ∈ ps) :
+    sumL ((groupByMz ms).map (·.2)) = ((matchedPeaks ps ms).map (·.2)).sum := by
+  rw [sumL_eq_sum]
+  have hfun : ∀ p ∈ ps, ∀ q ∈ ps, p.1 = q.1 → p.2 = q.2 := by
+    intro p hp q hq h
+    have := List.inj_on_of_nodup_map hnd hp hq h
+    rw [this]
+  obtain ⟨hg1, hg2⟩ := groupByMz_spec ms (fun p hp q hq => hfun p (hsub p hp) q (hsub q hq))
+  have hps : ps.Nodup := List.Nodup.of_map _ hnd
+  have hperm : (groupByMz ms).Perm (matchedPeaks ps ms) := by
+    unfold matchedPeaks
+    rw [List.perm_ext_iff_of_nodup hg1 (hps.filter _)]
+    intro a
+    rw [hg2 a]
+    simp only [List.mem_filter, decide_eq_true_eq]
+    constructor
+    · intro h; exact ⟨hsub a h, h⟩
+    · intro h; exact h.2
+  exact (hperm.map _).sum_eq
+
+theorem matched_le_total (ps ms : List (Rat × Rat)) (hnn : ∀ p ∈ ps, 0 ≤ p.2) :
+    ((matchedPeaks ps ms).map (·.2)).sum ≤ (ps.map (·.2)).sum ∧ 0 ≤ ((matchedPeaks ps ms).map (·.2)).sum := by
+  unfold matchedPeaks
+  constructor
+  · induction ps with
+    | nil => simp
+    | cons p ps ih =>
+      have := ih (fun q hq => hnn q (by simp [hq]))
+      have hp := hnn p (by simp)
+      simp only [List.filter_cons]
+      split
+      · simp only [List.map_cons, List.sum_cons]; linarith
+      · simp only [List.map_cons, List.sum_cons]; linarith
+  · apply List.sum_nonneg
+    intro x hx
+    simp only [List.mem_map, List.mem_filter] at hx
+    obtain ⟨p, ⟨hp, _⟩, rfl⟩ := hx
+    exact hnn p hp
+
 end Score
